@@ -8,13 +8,18 @@ Explicit-state breadth-first search over HISTORIES of runs that share one cache 
               AlleleResolver, so the only thing that crosses a run boundary is the cache directory.
   state    = exact content of <vcf>_allele_cache: absent / {file name -> decompressed text}.
   search   = from every state reachable in < depth runs ALL runs are executed on the real code, in a
-             private copy of the VCF directory restored to exactly that state.
+             private copy of the VCF directory restored to exactly that state (access sequences up to
+             the length bounds() states for that history level).  The reachable states are discovered
+             with a small generating set of runs before the workers fork; while exploring, every
+             successor is checked against the discovered set and a state the discovery missed is
+             explored on the spot (counter undiscovered_successor_states), so the bound stays complete.
   at every access every (position 0..last+1, base ACGT) lookup and every has_location answer of the
   contig is compared with
     (i)  the eager, cache-free resolver of the SAME configuration (answers identical in every mode, for
          every access order, for every earlier history), and
     (ii) gen-independent expectations computed from the VCF text for the unambiguous core
          (oracles/c18_expected.py).
+  One extra shard drives Molecule.allele (the DA tag value) through every mode for every configuration.
 """
 import atexit
 import gzip
@@ -37,7 +42,8 @@ RULE = ('breadth-first search over histories of runs sharing one allele-cache di
         'accessed contig are compared with the eager cache-free resolver of the same configuration and with the '
         'VCF-text oracle; states = distinct (cache state, run) cases, counter cache_states = distinct cache '
         'states expanded; a case is non-trivial when the run finds a cache file written by an EARLIER run for a '
-        'contig it accesses, or returns to a contig that was evicted by loading another one')
+        'contig it accesses, or returns to a contig that was evicted by loading another one; plus one shard of '
+        'Molecule.allele conformance cases (6 resolver runs each)')
 ASSUMPTIONS = [
     'lookup positions are >= 0 (the loader plants a sentinel at position -1)',
     'the VCF is bgzipped, tabix-indexed and readable by pysam; each site occurs once',
@@ -45,6 +51,8 @@ ASSUMPTIONS = [
     'samples have no missing allele, with phased=True; all other sites and phased=False are covered by the '
     'all-modes-agree comparison only',
     'an empty set counts as "nothing"',
+    'has_location: must agree between modes / calls, be False where the VCF has no record and True where a lookup '
+    'has an answer; its value at recorded but uninformative sites is not prescribed',
     'runs of one history are sequential (no two processes write the cache concurrently)',
 ]
 
@@ -68,10 +76,11 @@ def bounds(tier):
     b = {'modes': list(MODES), 'select_samples': [None, ['S1', 'S2'], ['S1']],
          'ignore_conversions': [None, [['C', 'T'], ['G', 'A']]], 'phased': [True, False],
          'first_operation': ['getAllelesAt', 'has_location'], 'access_symbols': list(SYMBOLS),
-         'max_access_sequence_length': 3,
          'vcf': {'samples': 3, 'contigs_with_records': 3, 'site_classes_per_contig': len(G.TEMPLATE)},
          'probe_positions': [0, G.MAX_POS0 + 1], 'probe_bases': list(G.PROBE_BASES)}
-    b['history_depth'] = 2 if tier == 'quick' else 3
+    # entry k = longest access sequence of a run that starts in a cache state reached by k earlier runs
+    b['max_access_sequence_length_by_history_level'] = [3, 2] if tier == 'quick' else [3, 3, 2]
+    b['history_depth'] = len(b['max_access_sequence_length_by_history_level'])
     return b
 
 
@@ -84,9 +93,9 @@ def access_sequences(max_len=3):
     return out
 
 
-def chunk_runs(mode, phased):
+def chunk_runs(mode, phased, max_len):
     """All runs of one (mode, phased) chunk, simplest first."""
-    for acc in access_sequences():
+    for acc in access_sequences(max_len):
         for si in range(len(SELECTS)):
             for ii in range(len(IGNORES)):
                 for first in FIRSTS:
@@ -96,9 +105,9 @@ def chunk_runs(mode, phased):
 CHUNKS = [(m, p) for p in PHASED for m in MODES]
 
 
-def all_runs():
+def all_runs(max_len):
     for m, p in CHUNKS:
-        yield from chunk_runs(m, p)
+        yield from chunk_runs(m, p, max_len)
 
 
 def generating_runs():
@@ -174,12 +183,10 @@ def _cache_dir(vcf_path):
     return vcf_path + '_allele_cache'
 
 
-def cache_file(contig, si):
-    """Name the documentation gives the per-contig cache file (anchors: <contig>[_samples].tsv.gz)."""
-    name = contig
-    if SELECTS[si] is not None:
-        name += '_' + '-'.join(sorted(SELECTS[si]))
-    return name + '.tsv.gz'
+def cached_for(contig, state):
+    """Did an earlier run leave a cache file for this contig (whatever its configuration)?  Only the
+    documented prefix <contig> of the file name is relied upon."""
+    return any(n == contig or n.startswith(contig + '.') or n.startswith(contig + '_') for n in state.text)
 
 
 class State:
@@ -315,7 +322,7 @@ def setup():
                                for p in G.PROBE_POSITIONS if p in site and p not in unknown
                                for b in G.PROBE_BASES if b in site[p])
                     has = tuple(p for p in G.PROBE_POSITIONS if p in site and p not in unknown and site[p])
-                    EXP[key][c] = (lk, has, unknown)
+                    EXP[key][c] = (lk, has, unknown, frozenset(site))
     if not any(REF[k][c][0] for k in REF for c in SYMBOLS):
         raise HarnessError('the eager reference resolver answers nothing at all: VCF generation is broken')
 
@@ -326,12 +333,11 @@ def _kind(contig):
     return 'cached-contig' if contig in G.CACHED_CONTIGS else 'uncached-contig'
 
 
-def _lookup_signature(run, contig, lk, pre):
+def _lookup_signature(run, contig, lk, pre, never_answered):
     mode, si, ii, phased = run[0], run[1], run[2], run[3]
-    ref_lk = REF[(si, ii, phased)][contig][0]
-    if mode == 'cache+eager' and not lk and ref_lk:
+    if mode == 'cache+eager' and never_answered:
         return 'flags:use_cache-without-lazyLoad-returns-nothing'
-    if mode in CACHE_MODES and contig in G.CACHED_CONTIGS and cache_file(contig, si) in pre.text:
+    if mode in CACHE_MODES and cached_for(contig, pre):
         # the answers came out of a cache file of an earlier run: whose answers are they?
         for ii2, ph2, label in ((1 - ii, phased, 'ignore_conversions'), (ii, not phased, 'phased'),
                                 (1 - ii, not phased, 'ignore_conversions+phased')):
@@ -350,7 +356,7 @@ def _lookup_signature(run, contig, lk, pre):
 def _oracle_violations(key, contig, lk, h1):
     """obs vs VCF-text expectations on the unambiguous core; only called when obs equals the eager reference,
     so a mismatch is a defect of the site rules themselves, whatever the mode."""
-    exp_lk, exp_has, unknown = EXP[key][contig]
+    exp_lk, exp_has, unknown, recorded = EXP[key][contig]
     out = []
     core = tuple(x for x in lk if x[0] not in unknown) if unknown else lk
     if core != exp_lk:
@@ -375,10 +381,16 @@ def _oracle_violations(key, contig, lk, h1):
                 cls = 'wrong-samples-at-informative-site'
             out.append((f'vcf-oracle:getAllelesAt:{cls}',
                         {'contig': contig, 'position': p, 'got': got.get(p), 'expected': want.get(p, {})}))
-    hcore = tuple(p for p in h1 if p not in unknown) if unknown else h1
-    if hcore != exp_has and core == exp_lk:
-        out.append(('vcf-oracle:has_location:disagrees-with-informative-sites',
-                    {'contig': contig, 'got': list(hcore), 'expected': list(exp_has)}))
+    # has_location: only what the statement fixes - no location where the VCF has no record, and a location
+    # wherever a lookup has an answer (sites that exist but are uninformative are left open)
+    if core == exp_lk:
+        hs = set(h1)
+        ghost = [p for p in h1 if p not in recorded]
+        lost = [p for p in exp_has if p not in hs]
+        if ghost:
+            out.append(('vcf-oracle:has_location:true-where-vcf-has-no-record', {'contig': contig, 'positions': ghost}))
+        if lost:
+            out.append(('vcf-oracle:has_location:false-at-informative-site', {'contig': contig, 'positions': lost}))
     return out
 
 
@@ -387,13 +399,14 @@ def check_run(run, pre, obs, exc):
     mode, si, ii, phased, first, access = run
     key = (si, ii, phased)
     out = []
+    never_answered = not any(lk or h1 or h0 for h0, lk, h1 in obs)
     for i, (h0, lk, h1) in enumerate(obs):
         contig = access[i]
         ref_lk, ref_h = REF[key][contig]
         lookup_ok = (lk == ref_lk)
         if not lookup_ok:
             diff = sorted(set(lk) ^ set(ref_lk))[:4]
-            out.append((_lookup_signature(run, contig, lk, pre),
+            out.append((_lookup_signature(run, contig, lk, pre, never_answered),
                         {'access_index': i, 'contig': contig, 'answers': len(lk), 'eager_answers': len(ref_lk),
                          'first_differences(pos,base,samples)': diff}))
         has_ok = (h1 == ref_h) and (h0 is None or h0 == ref_h)
@@ -460,12 +473,13 @@ def _discover(depth):
 
 
 def shards(tier):
-    depth = bounds(tier)['history_depth']
-    _discover(depth)
+    lens = bounds(tier)['max_access_sequence_length_by_history_level']
+    _discover(len(lens))
     out = []
     for sid in range(len(_STATES)):
         for ci in range(len(CHUNKS)):
-            out.append((sid, ci, depth))
+            out.append((sid, ci, tuple(lens)))
+    out.append(('molecule',))
     return out
 
 
@@ -477,14 +491,14 @@ def _returns_to_evicted(access):
     return False
 
 
-def _explore(state, runs, depth, acc, local):
+def _explore(state, runs, lens, acc, local):
     _, vcf = _workdir()
+    depth = len(lens)
     for run in runs:
         obs, exc, succ = _step(vcf, state, run)
         viols = check_run(run, state, obs, exc)
         mode, si = run[0], run[1]
-        cached_access = [c for c in run[5] if c in G.CACHED_CONTIGS]
-        found = mode in CACHE_MODES and any(cache_file(c, si) in state.text for c in cached_access)
+        found = mode in CACHE_MODES and any(cached_for(c, state) for c in run[5])
         wrote = succ.key != state.key
         evict = mode != 'eager' and _returns_to_evicted(run[5])
         effect = ('reads' if found else '') + ('+writes' if wrote else '') or 'cache-untouched'
@@ -500,16 +514,113 @@ def _explore(state, runs, depth, acc, local):
             succ.history = state.history + (run,)
             acc.count('undiscovered_successor_states', 1)
             acc.count('cache_states', 1)
-            _explore(succ, all_runs(), depth, acc, local)
+            _explore(succ, all_runs(lens[succ.level]), lens, acc, local)
 
 
 def run_shard(shard, tier, acc):
-    sid, ci, depth = shard
+    if shard[0] == 'molecule':
+        for case in molecule_cases():
+            viols, label = check_molecule(case)
+            acc.case(case, transitions=len(MOLECULE_HISTORY), execs=len(MOLECULE_HISTORY),
+                     nontrivial=label not in ('None', 'error'), outcome=f'molecule|allele={label}')
+            for sig, det in viols:
+                acc.violation(sig, case, det)
+        return
+    sid, ci, lens = shard
     state = _STATES[sid]
     if ci == 0:
         acc.count('cache_states', 1)
         acc.count(f'cache_states_level_{state.level}', 1)
-    _explore(state, chunk_runs(*CHUNKS[ci]), depth, acc, set())
+    _explore(state, chunk_runs(CHUNKS[ci][0], CHUNKS[ci][1], lens[state.level]), lens, acc, set())
+
+
+# ------------------------------------------------------------------------------------------------ molecules
+
+# Conformance of the consumer (Molecule.allele, the value written to the DA tag): one molecule whose read
+# spells the first haplotype of one sample over a whole contig, resolver of one configuration, the same
+# configuration in every loading mode in ONE directory (so the second cache run reads what the first wrote).
+MOLECULE_HISTORY = ('eager', 'lazy', 'cache', 'cache', 'cache+eager', 'cache+eager')
+
+
+def molecule_cases():
+    for contig in SYMBOLS:
+        for hap in G.SAMPLES:
+            for si in range(len(SELECTS)):
+                for ii in range(len(IGNORES)):
+                    for phased in PHASED:
+                        yield {'molecule': {'contig': contig, 'haplotype_of': hap,
+                                            'select_samples': list(SELECTS[si]) if SELECTS[si] else None,
+                                            'ignore_conversions': [list(x) for x in IGNORES[ii]] if IGNORES[ii] else None,
+                                            'phased': phased}}
+
+
+def _haplotype_read(contig, hap):
+    import pysam
+    header = pysam.AlignmentHeader.from_dict({'HD': {'VN': '1.6'}, 'SQ': [{'SN': c, 'LN': G.CONTIG_LENGTH}
+                                                                          for c in SYMBOLS]})
+    seq = ['A'] * (G.MAX_POS0 + 2)
+    src = contig if contig in G.CONTIGS else G.CONTIGS[0]
+    col = G.SAMPLES.index(hap)
+    for c, pos1, ref, alt, gts, _cls in G.records():
+        if c != src:
+            continue
+        alleles = [ref] + alt.split(',')
+        a = gts[col].replace('|', '/').split('/')[0]
+        base = ref if a == '.' else alleles[int(a)]
+        seq[pos1 - 1] = base[0]
+    seq = ''.join(seq)
+    r = pysam.AlignedSegment(header)
+    r.query_name = 'm1'
+    r.reference_id = header.get_tid(contig)
+    r.reference_start = 0
+    r.query_sequence = seq
+    r.query_qualities = pysam.qualitystring_to_array('I' * len(seq))
+    r.cigartuples = [(0, len(seq))]
+    r.flag = 0
+    r.mapping_quality = 60
+    r.set_tag('SM', 'cell1')
+    r.set_tag('RX', 'ACG')
+    r.set_tag('MX', 'scCHIC')
+    return r
+
+
+def check_molecule(case, vcf=None):
+    from singlecellmultiomics.molecule import Molecule
+    from singlecellmultiomics.fragment import Fragment
+    j = case['molecule']
+    cfg = run_from_json({'mode': 'eager', 'select_samples': j['select_samples'],
+                         'ignore_conversions': j['ignore_conversions'], 'phased': j['phased'],
+                         'first': 'getAllelesAt', 'access': []})
+    if vcf is None:
+        _, vcf = _workdir()
+        _restore(vcf, EMPTY)
+    seen = []
+    answers = []        # does the resolver answer any direct lookup on the contig after the molecule used it?
+    out = []
+    with _quiet():
+        for k, mode in enumerate(MOLECULE_HISTORY):
+            try:
+                ar = _resolver(vcf, (mode,) + cfg[1:])
+                m = Molecule(Fragment([_haplotype_read(j['contig'], j['haplotype_of'])]), allele_resolver=ar)
+                a = m.allele
+                lk = tuple(sorted((str(x), round(float(v), 6)) for x, v in m.allele_likelihoods.items()))
+                seen.append((None if a is None else str(a), lk))
+                answers.append(bool(_observe(ar, j['contig'], 'g')[1]))
+            except Exception as e:
+                seen.append(('error', repr(e)))
+                answers.append(None)
+                out.append((f'molecule.allele:{mode}:exception:{type(e).__name__}', {'run_index': k, 'error': repr(e)}))
+    _ON_DISK[os.getpid()] = ('<dirty>',)
+    ref = seen[0]
+    for k, mode in enumerate(MOLECULE_HISTORY):
+        if k and seen[k] != ref and seen[k][0] != 'error':
+            if mode == 'cache+eager' and seen[k] == (None, ()) and answers[0] and answers[k] is False:
+                sig = 'flags:use_cache-without-lazyLoad-returns-nothing'
+            else:
+                sig = f"molecule.allele:{mode}{':second-run' if MOLECULE_HISTORY[k - 1] == mode else ''}:differs-from-eager"
+            out.append((sig, {'run_index': k, 'mode': mode, 'allele,likelihoods': seen[k], 'eager': ref}))
+    dedup = set()
+    return [(s, d) for s, d in out if not (s in dedup or dedup.add(s))], str(ref[0])
 
 
 # ------------------------------------------------------------------------------------------------ replay
@@ -521,6 +632,8 @@ def replay(case):
     out = []
     try:
         vcf = G.clone(_MASTER, d)
+        if 'molecule' in case:
+            return check_molecule(case, vcf)[0]
         pre = EMPTY
         for j in case['history']:
             run = run_from_json(j)
